@@ -71,6 +71,17 @@ Inductive subseq {A} : list A -> list A -> Prop :=
 Definition crash (c : cst) (img : ns) : Prop :=
   exists sub, subseq sub (pend c) /\ img = apply_all (base c) sub.
 
+(* the machine comes back after a crash that left `img`: the durable namespace is the image, nothing is pending; which
+   files have complete data, the generations written so far and the obligation towards the last returned commit are
+   what they were (files are write-once: a recovered writer never appends to an old file) *)
+Definition restart (c : cst) (img : ns) : cst :=
+  {| base := img; pend := []; term := term c; gens := gens c; returned := returned c |}.
+
+(* a process that starts on a crash image knows nothing of the history but what the image shows: the files present,
+   which of them are complete, and the one generation its meta.json holds *)
+Definition from_image (files complete meta_files : list path) (opstamp : N) : cst :=
+  {| base := {| ns_files := files; ns_meta := Some 0 |}; pend := []; term := complete; gens := [(meta_files, opstamp)]; returned := None |}.
+
 (* every file generation g references is present under its name with complete data *)
 Definition openable (c : cst) (img : ns) (g : N) : Prop :=
   forall f, In f (files_of c g) -> In f (ns_files img) /\ In f (term c).
